@@ -184,10 +184,15 @@ func harnesses(r *fw.Run) []fw.HarnessSpec {
 		n := []int{8, 16, 32, 256, 9, 12, 15}[c.ChooseFree(7)] // byte-aligned widths and widths with a trailing partial byte
 		alpha := adversarialKeys(n)
 		maxSize := r.Pick(3, 5)
+		sameValues := c.ChooseFree(2) == 1
 		var es []dict.Entry
 		for i, k := range alpha {
 			if len(es) < maxSize && c.ChooseFree(2) == 1 {
-				es = append(es, dict.Entry{Key: k, Value: dict.Value{Bits: bits.FromUint(big.NewInt(int64(1000+i)), 32)}})
+				v := int64(1000 + i)
+				if sameValues {
+					v = 7 // neighbour keys with equal values: their leaves are equal cells (one shared cell once parsed)
+				}
+				es = append(es, dict.Entry{Key: k, Value: dict.Value{Bits: bits.FromUint(big.NewInt(v), 32)}})
 			}
 		}
 		if len(es) == 0 {
@@ -233,7 +238,7 @@ func harnesses(r *fw.Run) []fw.HarnessSpec {
 		} else {
 			key = absent[ki-len(es)]
 		}
-		c.Case([]byte(fmt.Sprintf("dict/%d/%v/%d/%s/%d", n, keysOf(es), encoder, key, prevSel)), true)
+		c.Case([]byte(fmt.Sprintf("dict/%d/%v/%d/%s/%d/%v", n, keysOf(es), encoder, key, prevSel, sameValues)), true)
 		c.Sample(map[string]any{"key_bits": n, "keys": len(es), "encoder": []string{"reference-canonical", "tongo"}[encoder], "proven_key_present": wantVal >= 0})
 		c.Label("width %d keys %v encoder %d key %s", n, keysOf(es), encoder, key)
 		c.Try("panic:dict-proof", func() {
@@ -307,9 +312,11 @@ func harnesses(r *fw.Run) []fw.HarnessSpec {
 			}
 			// the expected pruning set: at every fork on the path the sibling subtree
 			set := map[*cell.Cell]bool{}
+			onPath := map[*cell.Cell]bool{}
 			cur := orig
 			pos := 0
 			for {
+				onPath[cur] = true
 				lbl, err := labelLen(cur, n-pos)
 				if err != nil {
 					c.Fail("setup", "%v", err)
@@ -327,6 +334,13 @@ func harnesses(r *fw.Run) []fw.HarnessSpec {
 					cur = cur.Refs[0]
 				}
 				pos++
+			}
+			// a sibling that is the very cell of the path (equal cells are one cell in a parsed bag) cannot be pruned
+			// without hiding the proven value: it stays
+			for x := range set {
+				if onPath[x] {
+					delete(set, x)
+				}
 			}
 			p := checkProof(c, "dict", proof, orig, set)
 			if p == nil {
